@@ -31,8 +31,14 @@ def gen_case(rng, long_run=False):
     coords = trajsc.rand_coords(rng, T, A, lo=0, hi=1)
     n_sites = int(rng.integers(2, 5))
     labels = ['A' if k % 2 == 0 else 'B' for k in range(n_sites)]
-    if rng.random() < 0.3:
+    r_ = rng.random()
+    if r_ < 0.3:
         labels = ['A', 'B', 'C', 'A'][:n_sites]
+    elif r_ < 0.6:
+        # many distinct labels: the iteration order of a set of strings changes from process to process (hash randomisation); with
+        # five or six names it practically never coincides with the sorted order
+        n_sites = int(rng.integers(5, 7))
+        labels = [str(x) for x in rng.permutation(['A', 'B', 'C', 'D', 'E', 'F'])[:n_sites]]
     s, _ = hist.exclusive(*hist.random_histories(rng, T, nLi, n_sites, inner=False))
     grid = rng.permutation(512)[:n_sites]
     site_coords = [[(g // 64) / 8, ((g // 8) % 8) / 8, (g % 8) / 8] for g in grid]
